@@ -72,6 +72,12 @@ def BHOut.bhEntry (o : BHOut α) (i : Nat) : α × α :=
 /-- mass of `n` stars spread with slope `a` over `[l, u]` : `n / Pk(a,1,l,u) * Pk(a,2,l,u)` -/
 def massOf (n a l u : α) : α := n / PkCore a 1 l u * PkCore a 2 l u
 
+/-- the same, as the code computes it: a bin too thin for `Pk` (NaN) holds stars of its lower-edge mass -/
+def massOfT (n a l u : α) : α :=
+  match Pk a 1 l u, Pk a 2 l u with
+  | some p1, some p2 => n / p1 * p2
+  | _, _ => n * l
+
 /-- upper edges with the bin holding `mto` cut at `mto` (`turned_off_bins`) for a list of closed bins -/
 def truncU (b : ClosedBin α) (mto : α) : α := if le b.l mto && lt mto b.u then mto else b.u
 
@@ -79,7 +85,7 @@ def truncU (b : ClosedBin α) (mto : α) : α := if le b.l mto && lt mto b.u the
 def losses (bins : List (ClosedBin α)) (final : List α) (mto : α) : α × α :=
   let n0 := bins.map (·.n0)
   let m0 := bins.map fun b => b.A * PkCore b.a 2 b.l b.u
-  let ms := (bins.zip final).map fun (b, n) => massOf n b.a b.l (truncU b mto)
+  let ms := (bins.zip final).map fun (b, n) => massOfT n b.a b.l (truncU b mto)
   (sumL n0 - sumL final, sumL m0 - sumL ms)
 
 /-! ## direct construction from a BH mass function -/
